@@ -10,6 +10,7 @@ import (
 	"flag"
 	"fmt"
 	"os"
+	"os/exec"
 	"path/filepath"
 	"runtime/debug"
 	"sort"
@@ -419,6 +420,61 @@ func (c *Ctx) MergeShard(path string) error {
 		c.rule = r.Rule
 	}
 	return nil
+}
+
+// IsShard reports whether this process is a shard worker.
+func (c *Ctx) IsShard() bool { return c.Out != "" }
+
+// SpawnShards re-executes the harness binary n times as shard workers
+// (-shard i/n -out file), waits for them and merges their results. A worker
+// that dies is an engine error (never a VIOLATION).
+func (c *Ctx) SpawnShards(n int, extra ...string) {
+	dir, err := os.MkdirTemp("", "verif-shards-")
+	if err != nil {
+		c.EngineError("mkdtemp: %v", err)
+		return
+	}
+	defer os.RemoveAll(dir)
+	type res struct {
+		i   int
+		err error
+		log string
+	}
+	ch := make(chan res, n)
+	remaining := time.Until(c.deadline)
+	for i := 0; i < n; i++ {
+		go func(i int) {
+			out := filepath.Join(dir, fmt.Sprintf("shard%d.json", i))
+			args := []string{"-tier", c.Tier, "-shard", fmt.Sprintf("%d/%d", i, n), "-out", out, "-budget", remaining.String()}
+			args = append(args, extra...)
+			cmd := exec.Command(os.Args[0], args...)
+			var buf strings.Builder
+			cmd.Stdout = &buf
+			cmd.Stderr = &buf
+			cmd.Env = append(os.Environ(), "GOMAXPROCS=2")
+			err := cmd.Run()
+			ch <- res{i, err, buf.String()}
+		}(i)
+	}
+	for k := 0; k < n; k++ {
+		r := <-ch
+		out := filepath.Join(dir, fmt.Sprintf("shard%d.json", r.i))
+		if r.err != nil {
+			c.EngineError("shard %d failed: %v\n%s", r.i, r.err, tail(r.log, 60))
+			continue
+		}
+		if err := c.MergeShard(out); err != nil {
+			c.EngineError("shard %d: %v\n%s", r.i, err, tail(r.log, 30))
+		}
+	}
+}
+
+func tail(s string, n int) string {
+	l := strings.Split(s, "\n")
+	if len(l) > n {
+		l = l[len(l)-n:]
+	}
+	return strings.Join(l, "\n")
 }
 
 // LoadFindings reads known_findings.json.
